@@ -24,7 +24,7 @@ RULE = (
     "kernels over keys of shapes (),(1,),(2,),(3,),(2,2) and float/int dtype x dict model or Liesel "
     "model with a tracked derived Calc x included/excluded key selections (builder and direct) x "
     "quantity generator x minimised infos; every configuration is run under a second chunk size and "
-    "driving mode and compared bitwise. non-trivial = some epoch with thinning>1 and chunk not a "
+    "driving mode and compared bitwise. Also: keys listed as included and excluded at once; a decoy builder configured earlier in the process and in-place edits of the builder's lists. non-trivial = some epoch with thinning>1 and chunk not a "
     "multiple of it; distinct by (schedule, chunk, chains, kernels, model kind, selection)"
 )
 REQUIRED = ["positions_equal_simulation", "initial_values_at_index0", "infos_one_per_transition",
